@@ -5,6 +5,7 @@ pub mod refenc;
 pub mod sinks;
 pub mod types;
 pub mod nm;
+pub mod big;
 
 #[cfg(kani)]
 pub mod c01_rt;
